@@ -3,7 +3,7 @@
    [agrees] compares with the model's step function; [C20_ok] evaluates the property on the
    observation with oracles that do not go through the model's algorithms. *)
 From SC Require Export Base.Prelude Traits.Str Traits.Parent Traits.Vending Traits.FanSpeed Traits.ModeTrait
-  Traits.EnterLeave Traits.Meter Traits.Publication.
+  Traits.EnterLeave Traits.Meter Traits.Publication Traits.Options Traits.Store Traits.VendingStore Traits.FanMask.
 From Coq Require Import QArith Qabs.
 Open Scope Z_scope.
 
@@ -18,7 +18,10 @@ Inductive c20case :=
 | KEnterLeave (pre : elev) (o : elop) (post : elev)
 | KMeterNew (init : option meter) (now : Z) (obs : meter)
 | KMeter (pre : meter) (o : mop) (ret post : meter)
-| KPub (now : Z) (pre : option pub) (o : pubop) (obs : pout) (post : option pub).
+| KPub (now : Z) (pre : option pub) (o : pubop) (obs : pout) (post : option pub) (hpre hpost : string)
+| KNew (model : Z) (dflt opts : list mopt) (panicked : bool) (obs : list rstate)
+| KVStore (pre : vstate) (names_ok : bool) (o : vop) (obs : vres) (post : vstate)
+| KFanMask (ps : list preset) (pre req : fan) (m : option fmask) (obs : fout) (post : fan).
 
 Definition children_eqb (a b : children) : bool :=
   list_eqb (fun x y => String.eqb (fst x) (fst y) && strs_eqb (snd x) (snd y)) a b.
@@ -117,6 +120,24 @@ Definition fan_ok (ps : list preset) (pre req : fan) (relative : bool) (obs : fo
           else true)
   end.
 
+Definition fan_mask_ok (ps : list preset) (pre req : fan) (m : option fmask) (obs : fout) (post : fan) : bool :=
+  let named := negb (String.eqb (f_preset req) "") in
+  let exists_named := existsb (fun p => String.eqb (fst p) (f_preset req)) ps in
+  let bad := match m with Some k => fk_bad k | None => false end in
+  match obs with
+  | FErr c => (c =? 3) && ((named && negb exists_named) || bad) && fan_eqb post pre
+  | FPanic => false
+  | FOk f =>
+      fan_eqb f post && (negb named || exists_named) && negb bad && fan_consistent ps post
+      && (f_dir post =? (match m with Some k => if fk_dir k then f_dir req else f_dir pre | None => f_dir req end))
+      (* a write that names no speed field leaves the speed alone *)
+      && (match m with
+          | Some k => fk_pct k || fk_preset k || fk_idx k
+                      || ((f_pct post =? f_pct pre) && String.eqb (f_preset post) (f_preset pre) && (f_idx post =? f_idx pre))
+          | None => true
+          end)
+  end.
+
 (* ---- mode: wrapping relative steps judged with the mathematical modulus; explicit modes are used ---- *)
 Definition modes_eqb (a b : modes) : bool :=
   list_eqb (fun x y => String.eqb (fst x) (fst y) && strs_eqb (snd x) (snd y)) a b.
@@ -197,14 +218,16 @@ Definition pub_eqb (a b : pub) : bool :=
   String.eqb (p_id a) (p_id b) && String.eqb (p_version a) (p_version b) && String.eqb (p_body a) (p_body b)
   && String.eqb (p_media a) (p_media b) && option_eqb aud_eqb (p_aud a) (p_aud b) && oz_eqb (p_ptime a) (p_ptime b).
 Definition pout_eqb (a b : pout) : bool :=
-  match a, b with POk x, POk y => pub_eqb x y | PErr x, PErr y => x =? y | _, _ => false end.
-Definition local_hash (pre post : option pub) : content -> string :=
+  match a, b with POk x, POk y => pub_eqb x y | PErr x, PErr y => x =? y | PNil, PNil => true | _, _ => false end.
+(* [hpre] / [hpost]: the version a fresh server mints for the content stored before / after the operation *)
+Definition local_hash (pre post : option pub) (hpre hpost : string) : content -> string :=
   fun c => match pre with
-           | Some p => if content_eqb c (content_of p) then p_version p
-                       else match post with Some q => p_version q | None => EmptyString end
-           | None => match post with Some q => p_version q | None => EmptyString end
+           | Some p => if content_eqb c (content_of p) then hpre
+                       else match post with Some q => if content_eqb c (content_of q) then hpost else "?"%string | None => "?"%string end
+           | None => match post with Some q => if content_eqb c (content_of q) then hpost else "?"%string | None => "?"%string end
            end.
 Definition aud_name (p : pub) : string := match p_aud p with Some a => a_name a | None => EmptyString end.
+Definition has_aud (p : pub) : bool := match p_aud p with Some _ => true | None => false end.
 Definition fresh_ok (now : Z) (n : pub) : bool :=
   oz_eqb (p_ptime n) (Some now) && negb (String.eqb (p_version n) EmptyString)
   && match p_aud n with
@@ -212,21 +235,44 @@ Definition fresh_ok (now : Z) (n : pub) : bool :=
      | None => true
      end.
 Definition unchanged (pre post : option pub) : bool := option_eqb pub_eqb pre post.
-Definition pub_ok (now : Z) (pre : option pub) (o : pubop) (obs : pout) (post : option pub) : bool :=
+Definition version_current (p : option pub) (h : string) : bool :=
+  match p with Some p => String.eqb (p_version p) h | None => true end.
+(* the fields an update writes, stated per path; the audience name only where the mask semantics leave no
+   doubt (a whole-audience write with an unnamed audience merges into the stored one) *)
+Definition update_fields_ok (mask : option pmask) (old p n : pub) : bool :=
+  match mask with
+  | None => String.eqb (p_body n) (p_body p) && String.eqb (p_media n) (p_media p) && String.eqb (aud_name n) (aud_name p)
+            && Bool.eqb (has_aud n) (has_aud p)
+  | Some k =>
+      String.eqb (p_body n) (if k_body k then p_body p else p_body old)
+      && String.eqb (p_media n) (if k_media k then p_media p else p_media old)
+      && (if k_aud k then
+            match p_aud p with
+            | None => negb (has_aud n)
+            | Some a => has_aud n && (String.eqb (a_name a) EmptyString || String.eqb (aud_name n) (a_name a))
+            end
+          else if k_aname k then String.eqb (aud_name n) (aud_name p)
+          else String.eqb (aud_name n) (aud_name old))
+  end.
+Definition pub_ok (now : Z) (pre : option pub) (o : pubop) (obs : pout) (post : option pub) (hpre hpost : string) : bool :=
+  (* the invariant: the version is the hash of the content, in every state reached from a state where it was *)
+  (negb (version_current pre hpre) || version_current post hpost) &&
   match o with
   | PCreate p =>
       match pre, obs, post with
       | Some _, PErr c, _ => (c =? 6) && unchanged pre post
       | None, POk n, Some q =>
           pub_eqb n q && fresh_ok now n && content_eqb (content_of n) (content_of p)
-          && Bool.eqb (match p_aud n with Some _ => true | None => false end) (match p_aud p with Some _ => true | None => false end)
+          && Bool.eqb (has_aud n) (has_aud p) && String.eqb (p_version n) hpost
       | _, _, _ => false
       end
   | PUpdate p mask version =>
       match obs with
+      | PNil => false
       | PErr c =>
           unchanged pre post &&
           (if String.eqb (p_id p) EmptyString then c =? 3
+           else if match mask with Some k => k_bad k | None => false end then c =? 3
            else match pre with
                 | None => c =? 5
                 | Some old => (c =? 9) && negb (String.eqb version EmptyString) && negb (String.eqb version (p_version old))
@@ -235,17 +281,35 @@ Definition pub_ok (now : Z) (pre : option pub) (o : pubop) (obs : pout) (post : 
           match pre, post with
           | Some old, Some q =>
               pub_eqb n q && fresh_ok now n
+              && negb (match mask with Some k => k_bad k | None => false end)
               && (String.eqb version EmptyString || String.eqb version (p_version old))
-              && String.eqb (p_id n) (p_id old) && String.eqb (p_body n) (p_body p)
-              && (if mask =? 1 then String.eqb (p_media n) (p_media old) else String.eqb (p_media n) (p_media p))
-              && (if mask =? 0 then String.eqb (aud_name n) (aud_name p) else String.eqb (aud_name n) (aud_name old))
-              (* the version is a function of the content, and distinguishes contents *)
-              && Bool.eqb (String.eqb (p_version n) (p_version old)) (content_eqb (content_of n) (content_of old))
+              && String.eqb (p_id n) (p_id old) && update_fields_ok mask old p n
+              (* the new version is the one minted for the new content, and it distinguishes contents *)
+              && String.eqb (p_version n) hpost
+              && (negb (version_current pre hpre)
+                  || Bool.eqb (String.eqb (p_version n) (p_version old)) (content_eqb (content_of n) (content_of old)))
+          | _, _ => false
+          end
+      end
+  | PDelete id version allow_missing =>
+      match obs with
+      | PNil => allow_missing && negb (String.eqb id EmptyString) && unchanged pre None && unchanged post None
+      | PErr c =>
+          unchanged pre post &&
+          (if String.eqb id EmptyString then c =? 3
+           else match pre with
+                | None => (c =? 5) && negb allow_missing
+                | Some old => (c =? 9) && negb (String.eqb version EmptyString) && negb (String.eqb version (p_version old))
+                end)
+      | POk n =>
+          match pre, post with
+          | Some old, None => pub_eqb n old && (String.eqb version EmptyString || String.eqb version (p_version old))
           | _, _ => false
           end
       end
   | PAck id version receipt reason allow =>
       match obs with
+      | PNil => false
       | PErr c =>
           unchanged pre post &&
           (if String.eqb id EmptyString || String.eqb version EmptyString then c =? 3
@@ -257,7 +321,9 @@ Definition pub_ok (now : Z) (pre : option pub) (o : pubop) (obs : pout) (post : 
       | POk n =>
           match pre, post with
           | Some old, Some q =>
-              String.eqb version (p_version old) && negb (String.eqb version EmptyString) && pub_eqb n q &&
+              String.eqb version (p_version old) && negb (String.eqb version EmptyString) && pub_eqb n q
+              (* an acknowledgement is accepted only for the version of the stored content *)
+              && (negb (version_current pre hpre) || String.eqb version hpre) &&
               if acked old then allow && pub_eqb q old
               else
                 String.eqb (p_id n) (p_id old) && String.eqb (p_version n) (p_version old) && String.eqb (p_body n) (p_body old)
@@ -269,6 +335,126 @@ Definition pub_ok (now : Z) (pre : option pub) (o : pubop) (obs : pout) (post : 
           | _, _ => false
           end
       end
+  end.
+
+(* ---- constructors with options: every configured record / value is read back, nothing else, no panic ---- *)
+Definition recs_eqb (obs model : list (string * string)) : bool :=
+  (zlen obs =? zlen model) && nodup_strs' (map fst obs)
+  && forallb (fun e => ostr_eqb (lookup (fst e) model) (Some (snd e))) obs.
+Definition rstate_eqb (obs model : rstate) : bool :=
+  recs_eqb (rs_records obs) (rs_records model) && ostr_eqb (rs_value obs) (rs_value model).
+Definition ropts_for (r : nat) (o : mopt) : list ropt :=
+  match o with
+  | MAll x => [x]
+  | MTarget r' os => if Nat.eqb r' r then os else []
+  | MEvery os => os
+  | MSetting _ _ => []
+  end.
+Definition configured_records (r : nat) (all : list mopt) : list (string * string) :=
+  flat_map (fun o => flat_map (fun x => match x with OInitRecord id v => [(id, v)] | _ => [] end) (ropts_for r o)) all.
+Definition configured_value (r : nat) (all : list mopt) : option string :=
+  fold_left (fun acc o => fold_left (fun acc x => match x with OInitValue v => Some v | _ => acc end) (ropts_for r o) acc) all None.
+Definition new_ok (model : Z) (dflt opts : list mopt) (panicked : bool) (obs : list rstate) : bool :=
+  let all := dflt ++ opts in
+  negb panicked && (zlen obs =? Z.of_nat (model_nres model)) &&
+  forallb (fun ro => let '(r, o) := ro in
+             forallb (fun e => ostr_eqb (lookup (fst e) (rs_records o)) (Some (snd e))) (configured_records r all)
+             && (zlen (rs_records o) =? zlen (configured_records r all))
+             && ostr_eqb (rs_value o) (configured_value r all))
+          (combine (seq 0 (List.length obs)) obs).
+
+(* ---- vending record CRUD ---- *)
+Definition cons_eqb (a b : cons) : bool := String.eqb (c_title a) (c_title b) && String.eqb (c_url a) (c_url b).
+Definition store_eqb {R} (eqb : R -> R -> bool) (a b : store R) : bool :=
+  list_eqb (fun x y => String.eqb (fst x) (fst y) && eqb (snd x) (snd y)) a b.
+Definition sout_eqb {R} (eqb : R -> R -> bool) (a b : sout R) : bool :=
+  match a, b with
+  | SOk n x, SOk m y => String.eqb n m && eqb x y
+  | SErr x, SErr y => x =? y
+  | SNil, SNil => true
+  | _, _ => false
+  end.
+(* every record other than [k] is the same before and after *)
+Definition frame_ok {R} (eqb : R -> R -> bool) (k : string) (pre post : store R) : bool :=
+  forallb (fun e => String.eqb (fst e) k || option_eqb eqb (sfind (fst e) post) (Some (snd e))) pre
+  && forallb (fun e => String.eqb (fst e) k || option_eqb eqb (sfind (fst e) pre) (Some (snd e))) post.
+Definition is_some {A} (o : option A) : bool := match o with Some _ => true | None => false end.
+Definition crud_ok {R M} (eqb : R -> R -> bool) (mbad : M -> bool) (fields_ok : M -> R -> R -> R -> bool)
+  (pre : store R) (o : sop R M) (obs : sout R) (post : store R) : bool :=
+  store_wf post &&
+  match o with
+  | SCreate name gen v =>
+      match obs with
+      | SOk id n => negb (String.eqb id EmptyString) && (String.eqb name EmptyString || String.eqb id name)
+                    && negb (is_some (sfind id pre)) && eqb n v && option_eqb eqb (sfind id post) (Some v)
+                    && frame_ok eqb id pre post
+      | SErr c => (c =? 6) && is_some (sfind name pre) && store_eqb eqb pre post
+      | SNil => false
+      end
+  | SUpdate name v m =>
+      match obs with
+      | SOk id n => String.eqb id name && negb (String.eqb name EmptyString) && negb (mbad m)
+                    && match sfind name pre with Some old => fields_ok m old v n | None => false end
+                    && option_eqb eqb (sfind name post) (Some n) && frame_ok eqb name pre post
+      | SErr c => store_eqb eqb pre post
+                  && (if String.eqb name EmptyString then c =? 5 else if mbad m then c =? 3
+                      else (c =? 5) && negb (is_some (sfind name pre)))
+      | SNil => false
+      end
+  | SDelete name allow =>
+      match obs with
+      | SOk id n => String.eqb id name && option_eqb eqb (sfind name pre) (Some n) && negb (is_some (sfind name post))
+                    && frame_ok eqb name pre post
+      | SErr c => (c =? 5) && negb allow && negb (is_some (sfind name pre)) && store_eqb eqb pre post
+      | SNil => allow && negb (is_some (sfind name pre)) && store_eqb eqb pre post
+      end
+  end.
+Definition oqty_eqb := option_eqb qty_eqb.
+(* a named quantity field: cleared when the request has none, the request's when that is fully populated *)
+Definition qfield_ok (b : bool) (old new got : option qty) : bool :=
+  if b then match new with
+            | None => oqty_eqb got None
+            | Some q => if (q_unit q =? 0) || Qeq_bool (q_amount q) 0 then is_some got else oqty_eqb got (Some q)
+            end
+  else oqty_eqb got old.
+Definition stock_fields_ok (m : option smask) (old new got : stock) : bool :=
+  match m with
+  | None => stock_eqb got new
+  | Some k => qfield_ok (sk_used k) (s_used old) (s_used new) (s_used got)
+              && qfield_ok (sk_rem k) (s_rem old) (s_rem new) (s_rem got)
+              && qfield_ok (sk_last k) (s_last old) (s_last new) (s_last got)
+              && Bool.eqb (s_dispensing got) (if sk_disp k then s_dispensing new else s_dispensing old)
+  end.
+Definition cons_fields_ok (m : option cmask) (old new got : cons) : bool :=
+  match m with
+  | None => cons_eqb got new
+  | Some k => String.eqb (c_title got) (if ck_title k then c_title new else c_title old)
+              && String.eqb (c_url got) (if ck_url k then c_url new else c_url old)
+  end.
+Definition vstore_ok (pre : vstate) (names_ok : bool) (o : vop) (obs : vres) (post : vstate) : bool :=
+  names_ok && vstate_wf post &&
+  match o, obs with
+  | VInv o, RInv r => crud_ok stock_eqb smask_bad stock_fields_ok (fst pre) o r (fst post) && store_eqb cons_eqb (snd pre) (snd post)
+  | VCons o, RCons r => crud_ok cons_eqb cmask_bad cons_fields_ok (snd pre) o r (snd post) && store_eqb stock_eqb (fst pre) (fst post)
+  | VDispense name q, RDisp r =>
+      dispense_matches false (sfind name (fst pre)) (dispense_spec_with phys_convert (sfind name (fst pre)) q) r (sfind name (fst post))
+      && frame_ok stock_eqb name (fst pre) (fst post) && store_eqb cons_eqb (snd pre) (snd post)
+      && Bool.eqb (is_some (sfind name (fst pre))) (is_some (sfind name (fst post)))
+  | _, _ => false
+  end.
+Definition vstore_agrees (pre : vstate) (o : vop) (obs : vres) (post : vstate) : bool :=
+  match o, obs with
+  | VDispense name q, RDisp r =>
+      dispense_matches true (sfind name (fst pre)) (dispense (sfind name (fst pre)) q) r (sfind name (fst post))
+      && frame_ok stock_eqb name (fst pre) (fst post) && store_eqb cons_eqb (snd pre) (snd post)
+      && (zlen (fst pre) =? zlen (fst post))
+  | _, _ =>
+      let '(r, s') := vstep pre o in
+      match r, obs with
+      | RInv a, RInv b => sout_eqb stock_eqb a b
+      | RCons a, RCons b => sout_eqb cons_eqb a b
+      | _, _ => false
+      end && store_eqb stock_eqb (fst s') (fst post) && store_eqb cons_eqb (snd s') (snd post)
   end.
 
 Definition C20_ok (c : c20case) : bool :=
@@ -287,7 +473,10 @@ Definition C20_ok (c : c20case) : bool :=
   | KEnterLeave pre o post => el_ok pre o post
   | KMeterNew init now obs => meter_new_ok init now obs
   | KMeter pre o ret post => meter_ok pre o ret post
-  | KPub now pre o obs post => pub_ok now pre o obs post
+  | KPub now pre o obs post hpre hpost => pub_ok now pre o obs post hpre hpost
+  | KNew model dflt opts panicked obs => new_ok model dflt opts panicked obs
+  | KVStore pre names_ok o obs post => vstore_ok pre names_ok o obs post
+  | KFanMask ps pre req m obs post => fan_mask_ok ps pre req m obs post
   end.
 
 Definition C20_guard (c : c20case) : bool :=
@@ -305,7 +494,10 @@ Definition C20_guard (c : c20case) : bool :=
       | None => true
       end
   | KMeter pre o _ _ => meter_guard pre o
-  | KPub _ _ _ _ _ => true
+  | KPub _ _ _ _ _ _ _ => true
+  | KNew model dflt opts _ _ => config_wf (model_nres model) (dflt ++ opts)
+  | KVStore pre _ _ _ _ => vstate_wf pre
+  | KFanMask ps pre _ _ _ _ => presets_wf ps && fan_consistent ps pre
   end.
 
 Definition agrees (c : c20case) : bool :=
@@ -332,8 +524,16 @@ Definition agrees (c : c20case) : bool :=
   | KEnterLeave pre o post => elev_eqb post (el_step pre o)
   | KMeterNew init now obs => meter_eqb obs (new_meter init now)
   | KMeter pre o ret post => meter_eqb ret (meter_step pre o) && meter_eqb post (meter_step pre o)
-  | KPub now pre o obs post =>
-      let '(o', p') := pub_step (local_hash pre post) now pre o in pout_eqb obs o' && option_eqb pub_eqb post p'
+  | KPub now pre o obs post hpre hpost =>
+      let '(o', p') := pub_step (local_hash pre post hpre hpost) now pre o in pout_eqb obs o' && option_eqb pub_eqb post p'
+  | KNew model dflt opts panicked obs =>
+      match new_model_code (model_nres model) dflt opts with
+      | None => panicked
+      | Some st => negb panicked && list_eqb rstate_eqb obs st
+      end
+  | KVStore pre _ o obs post => vstore_agrees pre o obs post
+  | KFanMask ps pre req m obs post =>
+      let '(o, p) := fan_update_masked ps pre req m in fout_eqb obs o && fan_eqb post p
   end.
 
 Definition judge (c : c20case) : Z :=
